@@ -111,6 +111,13 @@ func (d *DADbl) SetHead(h uint64) {
 	}
 }
 
+// ForceHead sets the head height unconditionally (heights above it are "from the future").
+func (d *DADbl) ForceHead(h uint64) {
+	d.mu.Lock()
+	defer d.mu.Unlock()
+	d.head = h
+}
+
 // PushScript appends scripted responses for a blob kind.
 func (d *DADbl) PushScript(kind string, rs ...SubmitResp) {
 	d.mu.Lock()
